@@ -33,6 +33,9 @@ fn string_acts() -> Vec<Act> {
         vec!["EXPIRE", "k", "2"], vec!["PEXPIRE", "k", "1500"], vec!["EXPIRE", "k", "100"], vec!["PEXPIRE", "k", "500"], vec!["PERSIST", "k"], vec!["EXPIRE", "k", "0"], vec!["EXPIRE", "k", "-1"],
         vec!["RENAME", "k", "ab"], vec!["RENAME", "ab", "k"], vec!["RENAME", "k", "k2"], vec!["RENAME", "k2", "k"], vec!["DEL", "k"],
         vec!["SET", "ab", "z", "PX", "1000"], vec!["SET", "ab", "z"],
+        // overwrites with the very bytes the key already holds (v, as written by the TTL-setting forms above): the TTL goes
+        // all the same (a seeded 'nothing changes' shortcut in the engine kept the old entry, deadline included)
+        vec!["GETSET", "k", "v"], vec!["MSET", "k", "v"], vec!["SET", "k", "v", "XX"],
     ] {
         a.push(cmd(&c));
     }
